@@ -158,15 +158,13 @@ class DataPath:
 
         REPLACE = "path"
         ESC_CODE = rf"\{REPLACE}"
-        is_escaped = False
-        for k in list(spec.keys()):
-            if isinstance(k, str) and ESC_CODE in k:
-                is_escaped = True
-                spec_val = spec.pop(k)
-                k_new = k.replace(ESC_CODE, REPLACE)
-                spec[k_new] = spec_val
-        if is_escaped:
-            return spec
+        if any(isinstance(k, str) and ESC_CODE in k for k in spec):
+            # an escaped literal mapping: un-escape every key (into a new mapping, so that an
+            # un-escaped key cannot collide with a key that is still to be un-escaped):
+            return {
+                (k.replace(ESC_CODE, REPLACE) if isinstance(k, str) else k): v
+                for k, v in spec.items()
+            }
 
         if len(spec) > 1:
             raise MalformedDataPathSpec(
